@@ -675,13 +675,15 @@ func (v *Protocol) readBasicHeader() (format formatType, cid chunkID, err error)
 	}
 
 	// 64-319, 2B chunk header
+	// The 6 bits field, 0 for 2B and 1 for 3B chunk header.
+	field := cid
 	if err = binary.Read(v.r, binary.BigEndian, &t); err != nil {
 		return format, cid, oe.Wrapf(err, "read basic header for cid=%v", cid)
 	}
 	cid = chunkID(64 + uint32(t))
 
 	// 64-65599, 3B chunk header
-	if cid == 1 {
+	if field == 1 {
 		if err = binary.Read(v.r, binary.BigEndian, &t); err != nil {
 			return format, cid, oe.Wrapf(err, "read basic header for cid=%v", cid)
 		}
